@@ -48,6 +48,12 @@ CLAIMED["C20"] = ("exploration",
     "Trusted: the census model, the report parser. Ambiguous containers ([] \"\" {} = false; multi-valued dicts) are judged on the verdict only; the 3-line CLI wrapper is not executed.",
     "DESIGN.md §7 C20")
 
+CLAIMED["C07"] = ("exploration",
+    "differential runtime monitor across worker processes running under distinct injected hash-seed vectors; recorded outputs grouped by program and compared offline",
+    "K worker processes (6 quick, 16 thorough), each with its own github.com/arr-ai/hash seed vector installed before any value exists (one keeps crypto/rand seeds), evaluate the same seeded programs (~70 templates over sets/relations/dicts/tuples of 9-40 members: set algebra, => where orderby rank nest joins, aggregates, dict call/>>, printing, interpolation, //seq, JSON, superimposed construction). fu.Repr, arrai.OutputValue bytes and outcome kind must be identical in all K; the raw enumeration order of each program's base set is logged and a program counts as non-trivial only if that order really differed between processes.",
+    "Trusted: SetSeeds-before-main reproduces seed-dependent behaviour (each worker reports the fingerprint of the seeds in force; floor: K distinct fingerprints). 'All seeds' is sampled. Known: superimposed-sequence construction, multi-valued dict keys, float sum/mean order.",
+    "DESIGN.md §7 C07")
+
 NOT_YET = "check not built yet in this session (planned, see DESIGN.md §7/§12); will be claimed once its monitor is silent on the unchanged tree and catches seeded breaks"
 
 def main():
